@@ -107,6 +107,14 @@ func runC13(c *c13Case) (labels []string, nontrivial bool, err error) {
 		}
 		if i == 0 {
 			firstSpec, firstHash, firstErr = spec, hash, es
+			if c.Desc.ExpectInvalid() {
+				labels = append(labels, "inexact-phase-annotation")
+				if rerr == nil {
+					return labels, true, Violf("C13", "object-with-unknown-phase-accepted",
+						"a package with an object whose phase annotation (written with surrounding whitespace) names no phase of the manifest passed validation; rendered phases: %s", trunc(mustJSON(spec["phases"]), 600))
+				}
+				return labels, true, nil
+			}
 			if rerr != nil && !c.GetFileOfRendered {
 				return labels, false, fmt.Errorf("generated package does not render: %v", rerr)
 			}
@@ -191,6 +199,18 @@ func TestC13(t *testing.T) {
 	}, func(rt *rapid.T) {
 		c := &c13Case{Part: "render", Desc: GenPkg(rt, 6), Ctx: GenPkgCtx(rt)}
 		c.GetFileOfRendered = rapid.IntRange(0, 9).Draw(rt, "getfile") == 0
+		if !c.GetFileOfRendered && rapid.IntRange(0, 7).Draw(rt, "inexactphase") == 0 {
+			// one object's phase annotation is written with surrounding whitespace (quoted, or as a YAML block scalar)
+			var objs []*PkgObj
+			for fi := range c.Desc.Files {
+				for oi := range c.Desc.Files[fi].Objs {
+					objs = append(objs, &c.Desc.Files[fi].Objs[oi])
+				}
+			}
+			if len(objs) > 0 {
+				objs[rapid.IntRange(0, len(objs)-1).Draw(rt, "which")].PhaseForm = rapid.SampledFrom([]string{"lead", "trail", "block"}).Draw(rt, "form")
+			}
+		}
 		labels, nt, err := runC13(c)
 		st.Case(c, nt, labels...)
 		st.Report(rt, c, err)
